@@ -52,6 +52,8 @@ func ParseAnyPrivateKey(blob []byte, prompt passprompt.PasswordGetter) (crypto.P
 			}
 		}
 		return nil, errors.New("failed to find any private keys in PEM data")
+	} else if len(blob) == 0 {
+		return nil, errors.New("unrecognized private key format")
 	} else if blob[0] == asn1Magic {
 		return parsePrivateKey(blob)
 	} else if blob[0]&0x80 != 0 {
@@ -103,6 +105,9 @@ func parsePgpPrivateKey(blob []byte, prompt passprompt.PasswordGetter) (crypto.P
 		return nil, errors.New("file does not contain a private key")
 	}
 	if entity.PrivateKey.Encrypted {
+		if prompt == nil {
+			return nil, errors.New("private key is encrypted and no password was provided")
+		}
 		fmt.Fprintln(os.Stderr, "Key fingerprint:", entity.PrimaryKey.KeyIdString())
 		for name := range entity.Identities {
 			fmt.Fprintln(os.Stderr, "UID:", name)
